@@ -583,3 +583,89 @@ def add_charge_unit(u: Unit):
         me = a2[0] if a2 else None
         u.oblige(p, "clusters.add.the_new_table_is_added_to_this_container", tbl is r.get("table") and isinstance(me, VRef) and me.addr == p.ex.det_parts["charge"].addr, {}, CLUSTER_REPLAY)
     u.cover("clusters.add.cover", ps, lambda p: p.kind == "return")
+
+
+# ---- Charge.array in a HISTORY: read, the cluster table is edited in place, read again ------------------------------------------------
+CURRENT_REPLAY = lambda w: {"code": """
+import numpy as np, verif_probes as VP
+VIOLATED, DETAIL = False, 'charge.array is the binning of the cluster table as it is at the moment of the read'
+det = VP.detector(rows=3, cols=5)
+n = np.array([5.0, 7.0, 11.0]); v = np.array([0.5, 2.5, 1.5]); h = np.array([4.5, 0.5, 3.5]); z = np.zeros(3)
+det.charge.add_charge(particle_type='e', particles_per_cluster=n, init_energy=z, init_ver_position=v, init_hor_position=h, init_z_position=z, init_ver_velocity=z, init_hor_velocity=z, init_z_velocity=z)
+first = det.charge.array.copy()
+det.charge.set_frame_values('number', [50.0, 70.0, 110.0])           # a model edits the table in place
+exp = np.zeros((3, 5)); exp[0, 4] = 50.0; exp[2, 0] = 70.0; exp[1, 3] = 110.0
+second = det.charge.array.copy()
+det.charge.remove_from_frame(id_list=[1])
+exp3 = exp.copy(); exp3[2, 0] = 0.0
+third = det.charge.array.copy()
+det.charge.frame.loc[0, 'position_hor'] = 0.5                        # through the frame property
+exp4 = exp3.copy(); exp4[0, 4] = 0.0; exp4[0, 0] = 50.0
+fourth = det.charge.array.copy()
+if first[0, 4] != 5.0 or not np.array_equal(second, exp) or not np.array_equal(third, exp3) or not np.array_equal(fourth, exp4):
+    VIOLATED, DETAIL = True, f'after set_frame_values x10: {second.tolist()} (want {exp.tolist()}); after removing cluster 1: {third.tolist()}; after moving cluster 0: {fourth.tolist()}'
+""", "expect": "every read of charge.array reflects the cluster table at that moment (in-place edits included)"}
+
+
+@unit("C14", "array.current")
+def array_current(u: Unit):
+    """Charge.array (getter) in a history. The container is built by the REAL Charge.__init__ (whatever private fields it has), given a
+    non-empty cluster table T; then: read (must be bin(T)), the table OBJECT is edited in place to content T' (what set_frame_values,
+    remove_from_frame(ids) and models writing through charge.frame do — same DataFrame object), read again: the result is bin(T'),
+    not bin(T). convert_df_to_array is the contract of unit `bin` (the array is a function of the table content)."""
+    cci = u.cls(f"{CH}::Charge")
+    fg = cci.getters["array"]
+    u.fn(f"{CH}::Charge.__init__")
+    u.functions.setdefault(fg.qualname, {"sha": fg.sha, "file_sha": fg.module.sha, "paths": 0, "obligations": 0, "role": "under contract"})
+    BIN = z3.Function("binned_table", z3.IntSort(), z3.IntSort(), z3.IntSort(), z3.RealSort())
+    cq = f"{CH}::Charge.convert_df_to_array"
+    for edit in ("in place", "replaced", "none"):
+        cfg = D.install(Cfg("real"))
+        base_attr = cfg.lib_overrides[("opaque_attr", "df")]
+        cfg.lib_overrides[("opaque_attr", "df")] = lambda ex, obj, name, fr, base_attr=base_attr: VTuple([VStr("number")]) if name == "columns" else base_attr(ex, obj, name, fr)
+        cfg.lib_overrides["pandas.DataFrame"] = lambda ex, f, args, kwargs, fr: D.df_obj(ex, z3.IntVal(0))
+        hold = {}
+
+        def rebin(ex, args, kwargs, fr, hold=hold):
+            fr_ = ex.st.cell(args[0]).fields["_frame"]
+            hold["conversions"] = hold.get("conversions", 0) + 1
+            return ex.st.alloc(HArr((D.ROWS, D.COLS), VDtype("float64"), lambda ix, t=fr_.info["content"]: VFloat(BIN(t, z_int(ix[0]), z_int(ix[1])))))
+        cfg.contracts[cq] = Contract(cq, rebin, "C14.bin.*: the array is a function of the cluster table")
+
+        def setup(ex, edit=edit, hold=hold):
+            hold.clear()
+            D.mk_detector(ex, u)
+            st = ex.st
+            fr0 = Frame(None, cci.module)
+            try:
+                ch = ex.instantiate(cci, [], {"geo": ex.det_parts["geo"]}, fr0)
+                st.assume(z3.Int("n_clusters") > 0)
+                table = D.df_obj(ex, z3.Int("n_clusters"), content=z3.Int("table_T"))
+                st.cell(ch).fields["_frame"] = table
+                first = ex.getattr(ch, "array", fr0)
+                hold["first"] = first
+                if edit == "in place":
+                    table.info["content"] = z3.Int("table_T_edited")
+                    hold["want"] = z3.Int("table_T_edited")
+                elif edit == "replaced":
+                    st.assume(z3.Int("n_clusters2") > 0)
+                    st.cell(ch).fields["_frame"] = D.df_obj(ex, z3.Int("n_clusters2"), content=z3.Int("table_T2"))
+                    hold["want"] = z3.Int("table_T2")
+                else:
+                    hold["want"] = z3.Int("table_T")
+            except PyExc as pe:
+                hold["failed"] = ex.exc_class_name(pe.val)
+                ch = ex.det_parts["charge"]
+            return [ch], {}
+        ps = u.paths(fg, setup, cfg, label=f"Charge.array[read, table {edit}, read]")
+        for p in ps:
+            if p.kind != "return" or hold.get("failed") or not p.ex.is_arr(p.value):
+                u.oblige(p, f"array.current[{edit}].returns_array", False, {"exc": p.exc_name() or hold.get("failed")}, CURRENT_REPLAY, fnq=fg.qualname)
+                continue
+            f1 = p.st.cell(hold["first"])
+            out = p.st.cell(p.value)
+            g = (D.GEN[0], D.GEN[1])
+            u.oblige(p, f"array.current[{edit}].first_read", to_real(f1.elem(g)) == BIN(z3.Int("table_T"), g[0], g[1]), {}, CURRENT_REPLAY, fnq=fg.qualname)
+            u.oblige(p, f"array.current[{edit}].read_after", z3.And(to_real(out.elem(g)) == BIN(hold["want"], g[0], g[1]), z_int(out.shape[0]) == D.ROWS, z_int(out.shape[1]) == D.COLS),
+                     {"table": edit}, CURRENT_REPLAY, fnq=fg.qualname)
+        u.cover(f"array.current.cover[{edit}]", ps, lambda p: p.kind == "return")
